@@ -40,7 +40,7 @@ VARIANTS = (
 )
 
 CLASSES = ["generic", "hermitian", "hermitian_repeat", "upper_tri", "normal", "rank1", "rank2", "int", "diag", "scaled_small", "scaled_big",
-           "hermitian_psd", "scaled_huge", "int_big", "hermitian_big"]
+           "hermitian_psd", "scaled_huge", "int_big", "hermitian_big", "sparse", "sparse_hermitian"]
 
 
 def vname(fn, kw):
@@ -88,6 +88,12 @@ def make(rng, cls, n):
         A = refq.matmul(refq.randq(rng, n, min(2, n)), refq.randq(rng, min(2, n), n))
     elif cls == "int":
         A = gen.entries(rng, "int", n, n)
+    elif cls == "sparse":
+        A = gen.entries(rng, "sparse", n, n)
+    elif cls == "sparse_hermitian":
+        A = gen.entries(rng, "sparse", n, n)
+        A = A + refq.herm(A)
+        herm = True
     elif cls == "diag":
         A = gen.structured(rng, "diag", n, n)
     elif cls == "scaled_small":
